@@ -100,7 +100,7 @@ func TestC29(t *testing.T) {
 	}
 	freshNo := 0
 
-	ev.RapidCheck(t, 400, 12000, func(t *rapid.T) {
+	ev.RapidCheck(t, 300, 9600, func(t *rapid.T) {
 		fx.kv.MemoryKV = memory.WithHashFn(chord.Hash)
 		model := &c26Model{reg: map[string]map[string]bool{}, routes: map[string]*[3]*c26Route{}, custom: map[string]*c26Binding{}, fixed: map[string]string{}}
 		bound := map[string]*client{}
